@@ -33,6 +33,7 @@ type SpecEnv struct {
 	vars    map[string]SV
 	bound   map[string]SV
 	frame   *Frame // for local-variable lookup in loop invariants
+	loop    *loopInfo // the loop whose clauses are being evaluated (rangeindex is that loop's hidden index)
 	fc      *FuncContract
 	inPure  bool
 	inOld   bool
@@ -269,7 +270,7 @@ func (r *Run) evalIdent(env *SpecEnv, name string) SV {
 	}
 	// loop invariants: current value of a local variable takes precedence over the parameter's entry value
 	if env.frame != nil {
-		if sv, ok := env.frame.localByName(env.cur, name); ok {
+		if sv, ok := env.frame.localByNameIn(env.cur, name, env.loop); ok {
 			return sv
 		}
 	}
